@@ -24,6 +24,14 @@ Proof step (Props/C14.v) + three ties to the tree under test, all re-done on eve
          built-in call, in the forms `key=V`, `key = V`, `key= V`, `key =V`, positional, in several contexts and layouts;
          a diagnostic that is about that argument (names the key or the planted value) must cite the position of the
          first character of V.
+ strengthening round 2:
+ layouts  the opening brace on a LATER line than its header (Allman braces, optionally an empty line and a comment line in between),
+          headers broken over lines (keyword / bracket / condition / `=>` / arguments each on a line of its own) - for the corpus
+          (allman, allman-gap, paren-break) and for the generated nests (allman, allman-gap, broken, broken-tabs; new constructs: @lazy
+          function + call, decorated function, Raycast.simple arrow function); expression and argument plants in such layouts;
+ (B)      the LINE of a hand-over is checked as well as its column: bodies that are raw text by construction (PreFunction, class content;
+          recorded by c14_run.py) exactly; Tokenizer.parse-level hand-overs also when the text sits in the same column of another line;
+ (A)      SLASH_VALID / SLASH_PROBES: texts on which the `is_slash` fix 9285cea (ported into Model/Tok.v) changes the tokens.
 """
 from __future__ import annotations
 
@@ -57,6 +65,22 @@ C14_EXTRA = [
 ]
 
 
+# strengthening round 2 (tokenizer fix 9285cea): texts on which a stale `is_slash` flag changes the tokens - a `/` that ends a
+# line / a comment / stands before skipped whitespace, followed by a `/`.  Compiled like the character mutants (valid or not:
+# every Tokenizer.parse call is compared with the model, (A)); the first group is also part of the corpus (must compile).
+SLASH_VALID = [
+    ("slash_after_comment", 'function f() {\n    $x = 8; $x //\n/= 2;\n    $y = 3; // ends in a slash /\n    $y /= 3;\n    say "a"; //\n}'),
+    ("slash_comment_slash_line", 'function f() {\n    $x = 8; // c/\n    $x /= 2; ///\n    $x\n/= 4;\n}\n// top /\nfunction g() { $z = 1; //\n$z /= 1; }'),
+]
+SLASH_PROBES = [
+    '$x /\n/= 2;', '$x / /= 2;', '$x /\t/ 2;', 'function f() { $x = $y / /2; }', 'function f() { $x = $y /\n/ 2; }', '///\n/= 2;', '//\n/',
+    'function f() { if ($x /\n/ 2 == 1) { say "a"; } }', 'function f() { if ($x / / 2 == 1) { say "a"; } }', 'function f() { foo(/\n/); }',
+    'function f() { foo(a/ /b); bar(1 /\n/ 2, 3); }', 'say "a"; // trailing /\n/say "b";', 'say "a"; //\r\n/say "b";', '$x = 1 / // c /\n/ 2;',
+    'function f() { $x = [1 /\n/ 2]; $y = {a: 1 / / 2}; }', '/ /', '/\n/', '(/\n/)', '(/ /)', '{/\n/ a;}', 'a/\n\n/b;', 'a / \n / b;', '# c /\n/ x;',
+    'function f() { say "s/"; /say "t"; }', 'function f() { $x = 4; $x /= 2; /\n/ comment?\n}', 'execute run { / /\n }',
+]
+
+
 def run_jobs(jobs, chunk=60):
     chunks = [jobs[i:i + chunk] for i in range(0, len(jobs), chunk)]
     with ThreadPoolExecutor(max_workers=NCPU) as ex:
@@ -80,7 +104,112 @@ def layouts(src: str):
             out.append(("tabs", t))
     if "\n" in src and "\r" not in src and "`" not in src:
         out.append(("crlf", src.replace("\n", "\r\n")))     # strengthening round 1: Windows line ends
+    # strengthening round 2: the opening brace on a LATER line than the header it belongs to, headers broken over lines
+    if "`" not in src:
+        for lname, fn in (("allman", lambda t: allman(t, False)), ("allman-gap", lambda t: allman(t, True)), ("paren-break", paren_break)):
+            t = fn(src)
+            if t != src:
+                out.append((lname, t))
     return out
+
+
+def code_chars(text: str):
+    """offsets of the characters of `text` that are code (not inside a string literal or a comment) - untrusted scanner:
+    a wrong guess only yields a program that does not compile (dropped) or a layout that is not the intended one"""
+    out, i, n, quote = [], 0, len(text), None
+    while i < n:
+        c = text[i]
+        if quote:
+            if c == "\\":
+                i += 2
+                continue
+            if c == quote:
+                quote = None
+            i += 1
+            continue
+        if c in "'\"`":
+            quote = c
+        elif text.startswith("//", i) or (c == "#" and text[:i].rstrip(" \t")[-1:] in ("", "\n", ";", "{", "}")):
+            j = text.find("\n", i)
+            i = n if j < 0 else j
+            continue
+        else:
+            out.append(i)
+        i += 1
+    return out
+
+
+def allman(text: str, gap: bool) -> str:
+    """every `{` that follows a space or a `)` on its line is moved to a line of its own (Allman braces);
+    gap: with an empty line and a comment line between the header and the brace"""
+    code = set(code_chars(text))
+    out, last = [], 0
+    for i in sorted(code):
+        if text[i] != "{" or i == 0:
+            continue
+        j = i
+        while j > last and text[j - 1] in " \t":
+            j -= 1
+        if j == i and text[i - 1] != ")":
+            continue            # glued to a word (NBT of a vanilla command, `${`...): left alone
+        if j == 0 or text[j - 1] == "\n":
+            continue            # already first on its line
+        ls = text.rfind("\n", 0, j) + 1
+        indent = re.match(r"[ \t]*", text[ls:]).group(0)
+        out.append(text[last:j])
+        out.append(("\n\n" + indent + "// the brace is below\n" + indent) if gap else ("\n" + indent))
+        last = i
+    out.append(text[last:])
+    return "".join(out)
+
+
+def paren_break(text: str) -> str:
+    """every non-empty round bracket of the code that is followed by a `{` (condition, parameter list, loop header) or that is an
+    argument list containing a `,` is broken over lines: `(` newline content newline `)`; `&&` / `||` / `,` / `;` start new lines"""
+    code = code_chars(text)
+    cset = set(code)
+    stack, pairs = [], {}
+    for i in code:
+        if text[i] in "([{":
+            stack.append(i)
+        elif text[i] in ")]}":
+            if stack:
+                o = stack.pop()
+                if text[o] == "(" and text[i] == ")":
+                    pairs[o] = i
+    ins = {}
+    for o, c in pairs.items():
+        inner = text[o + 1:c]
+        if not inner.strip() or "\n" in inner:
+            continue
+        after = text[c + 1:].lstrip(" \t\n")
+        if not (after.startswith("{") or after.startswith("expand")):
+            continue
+        ls = text.rfind("\n", 0, o) + 1
+        indent = re.match(r"[ \t]*", text[ls:]).group(0)
+        ins[o + 1] = "\n" + indent + "\t"
+        ins[c] = "\n" + indent
+        depth = 0
+        for k in range(o + 1, c):
+            if k not in cset:
+                continue
+            if text[k] in "([{":
+                depth += 1
+            elif text[k] in ")]}":
+                depth -= 1
+            elif depth == 0 and (text.startswith("&&", k) or text.startswith("||", k)) and text[k - 1] == " ":
+                ins[k] = "\n" + indent + "\t"
+            elif depth == 0 and text[k] == ";" and text[k + 1:k + 2] == " ":
+                ins[k + 1] = "\n" + indent + "\t"
+    if not ins:
+        return text
+    out, last = [], 0
+    for k in sorted(ins):
+        out.append(text[last:k])
+        out.append(ins[k])
+        last = k
+    out.append(text[last:])
+    return "".join(out)
 
 
 # ------------------------------------------------------------------ where to plant (untrusted scanner:
@@ -123,24 +252,34 @@ def boundaries(text: str):
 
 # ------------------------------------------------------------------ generated nests (depth 0-4)
 
+# strengthening round 2: `\u00a6` = a place where the header may be broken (rendered as one space in the three original layouts),
+# `\u2016` = the same, rendered as nothing there.  The new layouts put the opening brace on a later line than the header
+# (Allman braces, optionally an empty line and a comment line in between) and break the header itself over lines.
 CONSTRUCTS = {
-    "function": ("function f%d() {", "}"),
-    "class": ("class c%d {", "}"),
-    "if": ("if ($x == %d) {", "}"),
-    "ifelse": ("if ($x == %d) { say \"t\"; } else {", "}"),
-    "elif": ("if ($x == %d) { say \"t\"; } else if ($y == 2) {", "}"),
-    "while": ("while ($w < %d) {", "}"),
-    "for": ("for ($i = 0; $i < %d; $i++) {", "}"),
-    "do": ("do {", "} while ($d < %d);"),
-    "switch": ("switch ($s) { case 1: say \"%d\";", "}"),
-    "execute": ("execute as @a[limit=%d] run {", "}"),
-    "expand": ("if ($e == %d) expand {", "}"),
-    "arrow": ("Hardcode.repeat((n%d) => {", "}, start=1, stop=2);"),
-    "returnrun": ("return run {", "}"),
+    "function": ("function f%d\u2016()\u00a6{", "}"),
+    "class": ("class c%d\u00a6{", "}"),
+    "if": ("if\u00a6(\u2016$x ==\u00a6%d\u2016)\u00a6{", "}"),
+    "ifelse": ("if ($x == %d)\u00a6{ say \"t\"; }\u00a6else\u00a6{", "}"),
+    "elif": ("if ($x == %d) { say \"t\"; } else\u00a6if\u00a6(\u2016$y == 2\u2016)\u00a6{", "}"),
+    "while": ("while\u00a6(\u2016$w <\u00a6%d\u2016)\u00a6{", "}"),
+    "for": ("for\u00a6(\u2016$i = 0;\u00a6$i < %d;\u00a6$i++\u2016)\u00a6{", "}"),
+    "do": ("do\u00a6{", "}\u00a6while\u00a6(\u2016$d < %d\u2016);"),
+    "switch": ("switch\u00a6(\u2016$s\u2016)\u00a6{\u00a6case 1:\u00a6say \"%d\";", "}"),
+    "execute": ("execute as @a[limit=%d] run\u00a6{", "}"),
+    "expand": ("if ($e == %d)\u00a6expand\u00a6{", "}"),
+    "arrow": ("Hardcode.repeat\u2016(\u2016(n%d)\u00a6=>\u00a6{", "},\u00a6start=1,\u00a6stop=2\u2016);"),
+    "returnrun": ("return run\u00a6{", "}"),
+    # strengthening round 2: further constructs that hand a body over
+    "lazy": ("@lazy\u00a6function lz%d\u2016()\u00a6{", "}"),                 # parsed when called: the call is appended to the program
+    "decorated": ("@add(__tick__)\u00a6function tk%d\u2016()\u00a6{", "}"),
+    "arrow2": ("Raycast.simple\u2016(\u2016onHit=\u2016()\u00a6=>\u00a6{", "},\u00a6interval=0.1,\u00a6maxIter=5\u2016);"),
 }
-TOP_ONLY = {"function", "class"}
-IN_CLASS = {"function", "class"}
-BODY = [k for k in CONSTRUCTS if k not in TOP_ONLY]
+TOP_ONLY = {"function", "class", "decorated"}
+ROOT_ONLY = {"lazy"}
+IN_CLASS = {"function", "class", "decorated"}
+BODY = [k for k in CONSTRUCTS if k not in TOP_ONLY and k not in ROOT_ONLY]
+BASE_LAYOUTS = ("one-line", "multi-line", "tabs")
+BRACE_LAYOUTS = ("allman", "allman-gap", "broken", "broken-tabs")     # strengthening round 2
 
 
 BEFORE = ['say "before";', 'say "be\\\nfore";', 'tellraw @a ["x\\\ny", "z\\\nw"];',
@@ -148,18 +287,31 @@ BEFORE = ['say "before";', 'say "be\\\nfore";', 'tellraw @a ["x\\\ny", "z\\\nw"]
           'say "h\u00e9 \u2713 \U0001d4b3";', 'say "c"; // comment { " ( \n']
 
 
+def render(piece: str, layout: str, indent: str) -> str:
+    """a construct's head / tail with its break marks resolved for the layout"""
+    if layout in BASE_LAYOUTS:
+        return piece.replace("\u00a6", " ").replace("\u2016", "")
+    nl = "\n" + indent
+    if layout == "allman":
+        return piece.replace("\u00a6{", nl + "{").replace("\u00a6", " ").replace("\u2016", "")
+    if layout == "allman-gap":
+        return piece.replace("\u00a6{", "\n" + nl + "// the brace is below" + nl + "{").replace("\u00a6", " ").replace("\u2016", "")
+    cont = nl + ("\t" if layout == "broken-tabs" else "  ")
+    return piece.replace("\u00a6{", nl + "{").replace("\u00a6", cont).replace("\u2016", cont)
+
+
 def nest_program(chain, layout, before=0):
     """chain of construct names, outermost first; returns program text with the PLANT in the innermost body,
     preceded (outside class bodies) by the statement BEFORE[before]."""
     if layout == "one-line":
         sep, ind = " ", ""
-    elif layout == "tabs":
+    elif layout in ("tabs", "broken-tabs"):
         sep, ind = "\n", "\t"
     else:
         sep, ind = "\n", "    "
     lines = []
     for d, k in enumerate(chain):
-        head = CONSTRUCTS[k][0]
+        head = render(CONSTRUCTS[k][0], layout, ind * d)
         lines.append(ind * d + (head % (d + 1) if "%d" in head else head))
     d = len(chain)
     inner_is_class = bool(chain) and chain[-1] == "class"
@@ -167,8 +319,10 @@ def nest_program(chain, layout, before=0):
         lines.append(ind * d + BEFORE[before])
     lines.append(ind * d + PLANT)
     for d in range(len(chain) - 1, -1, -1):
-        tail = CONSTRUCTS[chain[d]][1]
+        tail = render(CONSTRUCTS[chain[d]][1], layout, ind * d)
         lines.append(ind * d + (tail % (d + 1) if "%d" in tail else tail))
+    if chain and chain[0] == "lazy":
+        lines.append("lz1();")
     if layout == "one-line":
         return " ".join(x.strip() for x in lines)
     return sep.join(lines)
@@ -179,6 +333,8 @@ def valid_chain(chain):
         parent = chain[i - 1] if i else None
         if parent is None:
             continue
+        if k in ROOT_ONLY:
+            return False
         if parent == "class" and k not in IN_CLASS:
             return False
         if parent != "class" and k in TOP_ONLY:
@@ -205,9 +361,13 @@ def gen_nests(rng, tier):
             n_deep -= 1
     out = []
     for c in chains:
-        for layout in ("one-line", "multi-line", "tabs"):
+        for layout in BASE_LAYOUTS + BRACE_LAYOUTS:
+            if not c and layout in BRACE_LAYOUTS:
+                continue
             # shallow nests: every kind of statement in front of the plant; deeper ones: the plain one + a seeded other
             variants = range(len(BEFORE)) if len(c) <= 1 else sorted({0, rng.randrange(1, len(BEFORE))})
+            if layout in BRACE_LAYOUTS:         # the brace layouts: the plain statement (shallow nests: + a seeded other), deeper: a seeded one
+                variants = sorted({0, rng.randrange(1, len(BEFORE))}) if len(c) <= 1 else [rng.randrange(len(BEFORE))]
             if c and c[-1] == "class":
                 variants = [0]
             for b in variants:
@@ -236,6 +396,9 @@ ARG_CONTEXTS = [
     ("after-continuation", 'function f() {\n\tsay "c\\\nd"; %s\n}'),
     ("arrow-in-class", "class c { function f() { Hardcode.repeat((j) => { %s }, start=1, stop=2); } }"),
     ("multi-line-args", None),          # the call's own argument list broken over lines, tab-indented
+    # strengthening round 2: every enclosing brace on a later line than its header
+    ("allman-class", "class c\n{\n\tfunction f()\n\n\t// the brace is below\n\t{\n\t\tHardcode.repeat((j) =>\n\t\t{\n\t\t\t%s\n\t\t}, start=1, stop=2);\n\t}\n}"),
+    ("allman-lazy", "@lazy\nfunction lz()\n{\n\tif ($x == 1)\n\t{\n\t\t%s\n\t}\n}\nfunction f()\n{\n\tlz();\n}"),
 ]
 
 
@@ -284,6 +447,15 @@ def expr_plants():
             line, col = pos_of(src, src.index(NEEDLE))
             out.append(dict(name=f"expr:{t[:24]}:{cname}", layout=cname, src=src, header=None, pack_format=None, line=line, col=col,
                             depth=2, kind="expr"))
+            if cname in ("function", "class-if"):       # strengthening round 2: the header broken over lines / the brace on a later line
+                for lname, fn in (("expr-paren-break", paren_break), ("expr-allman-gap", lambda x: allman(x, True)),
+                                  ("expr-both", lambda x: allman(paren_break(x), False)),
+                                  ("expr-kw-break", lambda x: re.sub(r"\b(if|while|for|switch|repeat) ?\(", r"\1\n\t(", paren_break(x)))):
+                    src2 = fn(src)
+                    if src2 != src and src2.count(NEEDLE) == 1:
+                        line2, col2 = pos_of(src2, src2.index(NEEDLE))
+                        out.append(dict(name=f"expr:{t[:24]}:{cname}:{lname}", layout=lname, src=src2, header=None, pack_format=None,
+                                        line=line2, col=col2, depth=2, kind="expr"))
     return out
 
 
@@ -342,8 +514,10 @@ def handover_failures(res):
             # raw text handed over at a wrong position, or text that merely resembles the source (merged /
             # cleaned-up / substituted tokens are re-tokenised too)?  It is a wrong position iff the very text
             # sits on the same line within three columns of the position that was passed.
-            near = [m.start() for m in re.finditer(re.escape(call["string"]), fs)
-                    if pos_of(fs, m.start())[0] == call["line"] and abs(pos_of(fs, m.start())[1] - call["col"]) <= 3]
+            # strengthening round 2: ... or in the same column (within three) of ANOTHER line: the line of a hand-over is checked
+            # as well as its column (a body whose brace is on a later line than its header handed over with the header's line)
+            occ = [pos_of(fs, m.start()) + (m.start(),) for m in re.finditer(re.escape(call["string"]), fs)]
+            near = [o_ for l_, c_, o_ in occ if abs(c_ - call["col"]) <= 3 and (l_ == call["line"] or len(call["string"].strip()) >= 4)]
             if near:
                 n_calls += 1
                 bad.append(dict(kind="hand-over", text=call["string"][:200], passed=[call["line"], call["col"]],
@@ -359,6 +533,27 @@ def handover_failures(res):
                     if not token_at(fs, tok):
                         bad.append(dict(kind="token", token=tok[:4], text_there=fs[(offset_of(fs, tok[1], tok[2]) or 0):][:20]))
     return bad, n_calls, n_tokens, skipped
+
+
+def raw_handover_failures(res):
+    """(B, strengthening round 2) bodies that are raw source text BY CONSTRUCTION (function / method / decorated / @lazy function:
+    PreFunction; class: parse_class_content): the recorded (line, col) must be the position of the first character of the content
+    in file_string - line as well as column, no heuristic.  -> (failures, checked, of those with the brace on a later line than the header)"""
+    bad, n, n_later = [], 0, 0
+    for h in res.get("raw_handovers", []):
+        fs = res["file_strings"][h["fs"]]
+        if h["macros"]:
+            continue
+        n += 1
+        o = offset_of(fs, h["line"], h["col"]) if isinstance(h["line"], int) and isinstance(h["col"], int) else None
+        if o is None or not fs.startswith(h["content"], o) or o == 0 or fs[o - 1] != "{":
+            occ = [list(pos_of(fs, m.start() + 1)) for m in re.finditer(re.escape("{" + h["content"] + "}"), fs)]
+            bad.append(dict(kind="raw-hand-over", api=h["api"], text=h["content"][:200], passed=[h["line"], h["col"]], true_positions=occ[:3]))
+            continue
+        ls = fs.rfind("\n", 0, o - 1) + 1
+        if fs[ls:o - 1].strip() == "":
+            n_later += 1
+    return bad, n, n_later
 
 
 _LEAD = re.compile(r"[A-Za-z0-9_.$@#~^]+")
@@ -409,6 +604,12 @@ def derived_failures(res):
                 continue
             n_tokens += 1
             if not anchored(fs, t):
+                # tokens merged across white space (`x 2` -> `x2`): the merged text is not in the file, the token is anchored at its
+                # text iff it sits where the first given token's text is
+                first_in = d["in"][0]
+                if d["fn"] == "merge_tokens" and first_in[0] not in ("STRING", "FUNC") and first_in[3] and t[3].startswith(first_in[3]) \
+                        and (offset_of(fs, t[1], t[2]) is not None) and fs.startswith(first_in[3], offset_of(fs, t[1], t[2])):
+                    continue
                 bad.append(dict(kind="derived-token", entry_point=d["fn"], token=t[:4], given=[x[:4] for x in d["in"]][:4],
                                 text_there=fs[(offset_of(fs, t[1], t[2]) or 0):][:20]))
     return bad, n_calls, n_tokens, skipped
@@ -466,7 +667,7 @@ def main(tier: str) -> int:
 
     # ---- corpus in three layouts, traced
     progs = []
-    extra = [dict(name="c14extra." + n, src=t, header=None, pack_format=None) for n, t in C14_EXTRA]
+    extra = [dict(name="c14extra." + n, src=t, header=None, pack_format=None) for n, t in C14_EXTRA + SLASH_VALID]
     for c in corpus(REPO) + extra:
         for lname, text in layouts(c["src"]):
             progs.append(dict(name=c["name"], layout=lname, src=text, header=c["header"], pack_format=c["pack_format"],
@@ -478,18 +679,21 @@ def main(tier: str) -> int:
     # ---- mutants (diagnostic positions of the tokenizer itself)
     n_mut = 400 if tier == "quick" else 4000
     base = [p["src"] for p, _ in valid if p["header"] is None and p["layout"] == "multi-line"]
-    muts = char_mutants(rng, base, n_mut)
+    muts = SLASH_PROBES + char_mutants(rng, base, n_mut)
     mres = run_jobs([dict(src=s, cert=FULL_CERT, timeout=5) for s in muts])
 
     # ---- (B) real hand-overs / token positions
     nB_calls = nB_tokens = nB_skipped = 0
     nD_calls = nD_tokens = nD_skipped = 0
+    nR = nR_later = 0
     all_splits = []
     reportedB = set()
     for p, r in list(zip(progs, res)) + [(dict(name="mutant", layout="-", src=s, header=None), r) for s, r in zip(muts, mres)]:
         bad, a, b, sk = handover_failures(r)
         bad2, a2, b2, sk2 = derived_failures(r)
-        bad = bad + bad2
+        bad3, a3, b3 = raw_handover_failures(r)
+        nR += a3; nR_later += b3
+        bad = bad3 + bad + bad2
         nB_calls += a; nB_tokens += b; nB_skipped += sk
         nD_calls += a2; nD_tokens += b2; nD_skipped += sk2
         all_splits.extend((p, x) for x in sign_splits(r))
@@ -559,10 +763,12 @@ def main(tier: str) -> int:
     for j, r in zip(plant_jobs, pres):
         bad, a, b, sk = handover_failures(r)
         bad2, a2, b2, sk2 = derived_failures(r)
+        bad3, a3, b3 = raw_handover_failures(r)
+        nR += a3; nR_later += b3
         nB_calls += a; nB_tokens += b; nB_skipped += sk
         nD_calls += a2; nD_tokens += b2; nD_skipped += sk2
         all_splits.extend((j, x) for x in sign_splits(r))
-        for f in bad + bad2:
+        for f in bad3 + bad + bad2:
             key = (f["kind"], j["kind"])
             if key in reportedB or len(reportedB) >= 5:
                 continue
@@ -571,7 +777,7 @@ def main(tier: str) -> int:
                               failure=f, expected="every token (also those built by parse_func_args / merge_tokens / ...) cited at "
                                                   "the position of its own text"))
     n_named = n_unnamed_ok = n_other = n_compiled = n_generated = 0
-    by_depth, by_layout = {}, {}
+    by_depth, by_layout, by_construct_brace = {}, {}, {}
     model_cases = []
     reportedC = 0
     n_stmt_plants = sum(1 for j in plant_jobs if j["kind"] != "arg")
@@ -588,6 +794,9 @@ def main(tier: str) -> int:
             n_other += 1
             continue
         first = r["msg"].split("\n")[1] if "\n" in r["msg"] else r["msg"]
+        # strengthening round 2: a diagnostic raised inside Hardcode.* is prefixed by a warning paragraph; the message line is the one
+        # that cites the position
+        first = next((ln for ln in r["msg"].split("\n") if re.search(r" at line \d+(?: col \d+)?\.", ln)), first)
         if j["kind"] == "arg":
             n_arg += 1
             if not about_value(first, j["key"], j["value"]):
@@ -618,6 +827,9 @@ def main(tier: str) -> int:
             n_named += 1
             by_depth[j["depth"]] = by_depth.get(j["depth"], 0) + 1
             by_layout[j["layout"]] = by_layout.get(j["layout"], 0) + 1
+            if j["kind"] == "nest" and j["layout"] in BRACE_LAYOUTS:
+                for k_ in set(j["name"].split(":")[1].split(">")):
+                    by_construct_brace[k_] = by_construct_brace.get(k_, 0) + 1
             if cited != (j["line"], j["col"]):
                 if reportedC < 5:
                     reportedC += 1
@@ -626,7 +838,7 @@ def main(tier: str) -> int:
                                       actual=dict(line=cited[0], col=cited[1]), message=r["msg"][:600]))
             # (deep_find re-tokenises round brackets as argument lists; a for-header is tokenised with
             #  expect_semicolon=True by the real code: those plants are checked on the real side only)
-            if j["header"] is None and encodable(j["src"]) and not (j["kind"] == "expr" and ("for (" in j["src"] or not needle_is_token(j["src"]))):
+            if j["header"] is None and encodable(j["src"]) and not (j["kind"] == "expr" and (re.search(r"\bfor\s*\(", j["src"]) or not needle_is_token(j["src"]))):
                 model_cases.append(j)
         elif cited == (j["line"], j["col"]):
             n_unnamed_ok += 1
@@ -646,6 +858,12 @@ def main(tier: str) -> int:
     if n_arg_about < 0.4 * max(1, n_arg) or len(arg_by_form) < 5:
         ck.violation(dict(kind="plants-ineffective", argument_plants=n_arg, about_the_argument=n_arg_about, forms=arg_by_form,
                           note="fewer than 40 % of the argument-value plants produced a diagnostic about the planted argument"),
+                     no_input=True)
+    lacking = sorted(k for k in CONSTRUCTS if by_construct_brace.get(k, 0) < 4)
+    if lacking or (nR > 0 and nR_later < 100):      # nR == 0: PreFunction / parse_class_content no longer exist under these names (not alarmed)
+        ck.violation(dict(kind="plants-ineffective", constructs_without_named_plants_in_brace_layouts=lacking,
+                          raw_body_handovers_with_brace_on_a_later_line=nR_later,
+                          note="a construct that hands a body over is no longer exercised with its opening brace on a later line than its header"),
                      no_input=True)
     if n_named + n_unnamed_ok < 0.5 * max(1, n_stmt_plants):
         ck.violation(dict(kind="plants-ineffective", named=n_named, at_plant=n_unnamed_ok, total=n_stmt_plants,
@@ -686,12 +904,14 @@ def main(tier: str) -> int:
              "distinct_nontrivial = distinct calls + named plants",
         programs=len(progs) + len(muts) + len(plant_jobs),
         tokenizer_calls_compared=len(calls), call_outcomes=kinds, calls_ending_in_internal_exception_skipped=n_crash_calls,
-        handovers_checked=nB_calls, tokens_checked_against_file=nB_tokens, generated_text_calls_skipped=nB_skipped,
+        handovers_checked=nB_calls, raw_body_handovers_checked_line_and_col=nR, raw_body_handovers_with_brace_on_a_later_line=nR_later,
+        slash_probes=len(SLASH_PROBES),  tokens_checked_against_file=nB_tokens, generated_text_calls_skipped=nB_skipped,
         derived_token_calls_checked=nD_calls, derived_tokens_checked=nD_tokens, derived_calls_skipped_not_raw=nD_skipped,
         sign_splits_compared_with_model=len(splits), programs_with_string_continuation=n_cont,
         argument_plants=dict(total=n_arg, about_the_argument=n_arg_about, by_form=arg_by_form, by_context=arg_by_ctx),
         plants=dict(total=len(plant_jobs), reported_by_name=n_named, unnamed_but_at_plant=n_unnamed_ok,
                     other_diagnostic=n_other, still_compiles=n_compiled, in_generated_text=n_generated, by_depth=by_depth, by_layout=by_layout,
+                    named_in_brace_layouts_by_construct=by_construct_brace,
                     compared_with_model=len(model_cases)),
         disagreements_checked=len(bad) + len(pbad) + len(sbad),
         samples=[dict(program=j["src"][:160], planted=[j["line"], j["col"]]) for j in plant_jobs[:2] + plant_jobs[-2:]],
@@ -713,7 +933,8 @@ def replay(path: str) -> int:
         return 0 if r["cited"] and tuple(r["cited"]) == (rp["expected"]["line"], rp["expected"]["col"]) else 1
     bad, a, b, _ = handover_failures(r)
     bad2, a2, b2, _ = derived_failures(r)
-    bad, a, b = bad + bad2, a + a2, b + b2
+    bad3, a3, _ = raw_handover_failures(r)
+    bad, a, b = bad3 + bad + bad2, a + a2 + a3, b + b2
     if rp.get("check") == "A2":
         ok = all(sg[:2] == eq[:2] and sg[2] == eq[2] + 1 and sg[3] == eq[3][1:] for eq, sg in sign_splits(r))
         print("expected: sign token = (type, line, col + 1, string[1:]) of the `=-` / `=+` operator token")
